@@ -16,8 +16,8 @@ PLAN = dict(
                           "arena / coroutine tear-down at process exit is not part of the case"],
     floor=dict(quick=400, thorough=12000),
     tiers=dict(
-        quick=[det("rel", H, "cs-rel", 16, 80, 4, tso=True, time_cap=28),
-               det("dbg", H, "cs-dbg", 16, 32, 4, tso=True, time_cap=22),
+        quick=[det("rel", H, "cs-rel", 16, 400, 4, tso=True, time_cap=45),
+               det("dbg", H, "cs-dbg", 16, 120, 4, tso=True, time_cap=40),
                tsan("C20", 4, 80)],
         thorough=[det("rel", H, "cs-rel", 16, 1500, 5, tso=True, time_cap=230),
                   det("dbg", H, "cs-dbg", 16, 500, 5, tso=True, time_cap=150),
